@@ -791,7 +791,7 @@ impl<'a, SE: extensions::ShellExtensions> WordExpander<'a, SE> {
 
         let result = braceexpansion::generate_and_combine_brace_expansions(brace_expansion_pieces)
             .into_iter()
-            .map(|s| if s.is_empty() { "\"\"".into() } else { s })
+            .filter(|s| !s.is_empty())
             .join(" ");
 
         Ok(result.into())
